@@ -421,7 +421,7 @@ class TlGenerator:
         with open(file_path, 'r') as f:
             temp = ''
             for line in f:
-                stripped = line.strip()
+                stripped = line.split('//')[0].strip()  # comments end at the line end, also inside a multi-line declaration
 
                 if not stripped or stripped.startswith('//') or stripped.startswith('---'):
                     continue
